@@ -261,13 +261,61 @@ def enumerate_trees(part, nparts, switches=frozenset()):
     return stats
 
 
+def _neg_leaf(e, idx, counter):
+    """Copy of tree e with its idx-th leaf (left to right) under a unary minus."""
+    if e[0] != "bin":
+        counter[0] += 1
+        return ["neg", list(e)] if counter[0] - 1 == idx else list(e)
+    return ["bin", e[1], _neg_leaf(e[2], idx, counter), _neg_leaf(e[3], idx, counter)]
+
+
+def enumerate_unary(part, nparts, max_ops=2, switches=frozenset()):
+    """Every operator tree with 1..max_ops binary operators in which exactly one leaf carries a unary minus, plus the negated whole tree, as the
+    right-hand side of an assignment and as the left operand of the comparison of an IF (complete enumeration)."""
+    import itertools
+
+    stats = Stats()
+    vec = {"I": 7, "J": -3, "K": 2, "N": 5}
+    k = 0
+    for n in range(1, max_ops + 1):
+        for shape in _shapes(n):
+            for ops in itertools.product(ENUM_OPS, repeat=n):
+                base = _fill(shape, list(ops), [list(x) for x in ENUM_LEAVES])
+                if _has_chained_pow(base):
+                    continue
+                variants = [_neg_leaf(base, i, [0]) for i in range(n + 1)] + [["neg", ["par", base]]]
+                for vi, e in enumerate(variants):
+                    k += 1
+                    if k % nparts != part:
+                        continue
+                    for ctx in ("assign", "if"):
+                        init = [["let", ["var", v], cbgen.lit_expr(x), False] for v, x in vec.items()]
+                        if ctx == "assign":
+                            body = [["let", ["var", "X"], e, False]]
+                        else:
+                            body = [["if", ["cmp", ">", e, ["num", "1", 1]], ["stmts", [["let", ["var", "X"], ["num", "9", 9], False]]], None]]
+                        prog = [[10, init], [30, body], [40, [["print", [["e", ["var", "X"]]]]]]]
+                        case = {"prog": prog, "paren_unary": "paren_unary" in switches}
+                        try:
+                            check_case(case)
+                        except Violation as v:
+                            stats.fail(v.detail, v.case)
+                            return stats
+                        triv = case.get("_trivial")
+                        stats.case(key=[e, ctx], nontrivial=not triv, classes=["enumerated_unary_%d_ops_%s" % (n, ctx)] + (["trivial_" + triv.split(":")[0]] if triv else []),
+                                   sample={"source": case.get("_source", "").split("\n")[1] if case.get("_source") else ""})
+    return stats
+
+
 def plan(tier, seed, switches):
     if tier == "quick":
         return [("campaign", [dict(seed=seed * 100 + k, n=400, switches=switches) for k in range(4)]),
-                ("enumerate_trees", [dict(part=k, nparts=4, switches=switches) for k in range(4)])]
+                ("enumerate_trees", [dict(part=k, nparts=4, switches=switches) for k in range(4)]),
+                ("enumerate_unary", [dict(part=k, nparts=4, max_ops=2, switches=switches) for k in range(4)])]
     return [("campaign", [dict(seed=seed * 1000 + k, n=4000, switches=switches) for k in range(16)]),
-            ("enumerate_trees", [dict(part=k, nparts=8, switches=switches) for k in range(8)])]
+            ("enumerate_trees", [dict(part=k, nparts=8, switches=switches) for k in range(8)]),
+            ("enumerate_unary", [dict(part=k, nparts=16, max_ops=3, switches=switches) for k in range(16)])]
 
 
 def evidence_extra(stats):
-    return {"exhaustive_part": "every operator tree with 1-3 binary operators over + - * / ^ AND OR (distinct variable leaves, two value vectors, assignment context) is enumerated on every run"}
+    return {"exhaustive_part": "every operator tree with 1-3 binary operators over + - * / ^ AND OR (distinct variable leaves, two value vectors, assignment context) is enumerated on every run; so is every such tree with 1-2 operators (1-3 in the thorough tier) in which one leaf, or the whole tree, carries a unary minus, in assignment and IF-comparison context"}
